@@ -148,3 +148,13 @@ M("c16-D14-regress", "C16", "extra/tcpclient.py", "        msg_stop = False\n   
 M("c16-rawlower", "C16", "extra/tcpclient.py", "(48 <= b <= 57 or 65 <= b <= 70 or 97 <= b <= 102)", "(48 <= b <= 57 or 65 <= b <= 70 or 97 <= b <= 101)")
 M("c16-net-df21", "C16", "streamer/source.py", "            elif df == 20 or df == 21:\n                self.local_buffer_commb_msg.append(msg)\n                self.local_buffer_commb_ts.append(t)\n            else:\n                continue\n\n        if len(self.local_buffer_adsb_msg) > 1:\n            self.raw_pipe_in.send(\n                {\n                    \"adsb_ts\": self.local_buffer_adsb_ts,\n                    \"adsb_msg\": self.local_buffer_adsb_msg,\n                    \"commb_ts\": self.local_buffer_commb_ts,\n                    \"commb_msg\": self.local_buffer_commb_msg,\n                }\n            )\n            self.reset_local_buffer()\n\n\nclass RtlSdrSource", "            elif df == 20:\n                self.local_buffer_commb_msg.append(msg)\n                self.local_buffer_commb_ts.append(t)\n            else:\n                continue\n\n        if len(self.local_buffer_adsb_msg) > 1:\n            self.raw_pipe_in.send(\n                {\n                    \"adsb_ts\": self.local_buffer_adsb_ts,\n                    \"adsb_msg\": self.local_buffer_adsb_msg,\n                    \"commb_ts\": self.local_buffer_commb_ts,\n                    \"commb_msg\": self.local_buffer_commb_msg,\n                }\n            )\n            self.reset_local_buffer()\n\n\nclass RtlSdrSource")
 M("c16-long21", "C16", "extra/tcpclient.py", "                msg = \"\".join(\"%02X\" % i for i in mm[8:22])\n            else:\n                # Other message tupe\n                continue\n\n            if len(msg) not in [14, 28]:\n                continue\n\n            df = pms.df(msg)\n\n            # skip", "                msg = \"\".join(\"%02X\" % i for i in mm[8:22]) if mm[21] != 0x1A else \"\"\n            else:\n                # Other message tupe\n                continue\n\n            if len(msg) not in [14, 28]:\n                continue\n\n            df = pms.df(msg)\n\n            # skip")
+
+# ---- C19
+M("c19-start", "C19", "extra/rtlreader.py", "            frame_start = i + pbits * 2", "            frame_start = i + pbits * 2 - 1")
+M("c19-nocrc", "C19", "extra/rtlreader.py", "            if pms.crc(msg) == 0:\n                return True", "            return True")
+M("c19-th", "C19", "extra/rtlreader.py", "th_amp_diff = 0.8  #", "th_amp_diff = 0.35  #")
+M("c19-D16-regress", "C19", "extra/rtlreader.py", "                msgbin = msgbin[: fbits if msgbin and msgbin[0] else fbits // 2]\n", "")
+M("c19-snr", "C19", "extra/rtlreader.py", "        min_sig_amp = 3.162 * self.noise_floor  # 10 dB SNR", "        min_sig_amp = 31.62 * self.noise_floor  # 10 dB SNR")
+M("c19-df11", "C19", "extra/rtlreader.py", "        elif df in [4, 5, 11] and msglen == 14:\n            return True\n        return False", "        elif df in [4, 5] and msglen == 14:\n            return True\n        return False")
+M("c19-jump", "C19", "extra/rtlreader.py", "                i = frame_start + j\n", "                i = frame_start + j + 300\n")
+M("c19-bit", "C19", "extra/rtlreader.py", "                    elif p2[0] >= p2[1]:\n                        c = 1", "                    elif p2[0] >= p2[1] * 1.3:\n                        c = 1")
